@@ -145,9 +145,9 @@ def fam_backforth(rng, count):
         steps = [dict(Q)]
         for _ in range(rng.randint(2, 6)):
             a, b = rng.sample(range(2, k + 2), 2)
-            steps.append({"op": "requires", "x": a, "A": [b], "f1": False, "qs": 1, "qA": [a]})
+            steps.append({"op": "requires", "x": a, "A": [b], "f1": False, "f2": rng.random() < 0.3, "qs": 1, "qA": [a]})
             if rng.random() < 0.7:
-                steps.append({"op": "requires", "x": a, "A": [b], "f1": True, "qs": 1, "qA": [b]})
+                steps.append({"op": "requires", "x": a, "A": [b], "f1": True, "f2": rng.random() < 0.4, "qs": 1, "qA": [b]})
         out.append(hist(universe(kinds), mem, req, steps, perm(rng, k + 1)))
     return out
 
